@@ -913,11 +913,17 @@ syntax_error:
    else
       SPX_MSG_ERROR(std::cerr << "ELPFRD15 Syntax error in line " << lineno << std::endl;)
 
-      if(p_cnames == nullptr)
-         spx_free(cnames);
+   if(p_cnames == nullptr)
+   {
+      cnames->~NameSet();
+      spx_free(cnames);
+   }
 
    if(p_rnames == nullptr)
+   {
+      rnames->~NameSet();
       spx_free(rnames);
+   }
 
    spx_free(buf);
    spx_free(tmp);
